@@ -362,7 +362,39 @@ def prep_config(task):
     st = Setup(cfg, d)
     if tables:
         st.sharing.load_all(tables)
+    import time
+
     st.discover()
+    # shallow pass first (iterative context bounding: 0, 1, 2 preemptions):
+    # small, finds the violations that need few preemptions even on a tree
+    # whose full schedule space is far too large, and converges the sharing
+    # tables
+    shallow = {"execs": 0, "blocked": 0, "transitions": 0, "outcomes": {},
+               "violations": []}
+    for bound in (0, 1, 2):
+        st.sharing.freeze()
+        exp0, vios0, _ = _explore(
+            st, dict(cfg, preempt=bound, deadline=time.time() + 12),
+            max_execs=400)
+        shallow["execs"] += exp0.execs
+        shallow["blocked"] += exp0.blocked
+        shallow["transitions"] += exp0.transitions
+        for oc, n in exp0.outcomes.items():
+            shallow["outcomes"][oc] = shallow["outcomes"].get(oc, 0) + n
+        shallow["violations"] += [
+            (k, w, dict(c, sharing=st.sharing.export()))
+            for k, (w, c) in vios0.items()]
+        if vios0:
+            break
+    if shallow["violations"]:
+        # established already: no need for the exhaustive pass
+        out = _result(st, cfg, exp0, {}, 0)
+        out.update(execs=shallow["execs"], blocked=shallow["blocked"],
+                   transitions=shallow["transitions"],
+                   outcomes=shallow["outcomes"],
+                   violations=shallow["violations"], capped=True,
+                   frontier=[], grew=False)
+        return out
     for _ in range(6):
         st.sharing.freeze()
         exp, vios, replays = _explore(st, cfg, split=SPLIT_DEPTH)
@@ -372,6 +404,7 @@ def prep_config(task):
         raise core.HarnessError("visible set did not stabilise for %r" % cfg)
     out = _result(st, cfg, exp, vios, replays)
     out["frontier"] = exp.frontier
+    out["shallow_execs"] = shallow["execs"]
     return out
 
 
@@ -470,6 +503,9 @@ def run(ctx):
         capped = any(o["capped"] for o in outs)
         if capped:
             ctx.exhaustive = False
+        if execs == 0 and not any(o["violations"] for o in outs):
+            raise core.HarnessError(
+                "configuration %s: no complete execution was explored" % name)
         per[name] = {
             "complete_executions": execs, "sleep_set_blocked": blocked,
             "transitions": trans, "subtrees": len(outs) - 1,
